@@ -604,6 +604,14 @@ class Interp:
                     return self.const_item_value(cv)
         if name in self.consts:
             return self.const_item_value(self.consts[name])
+        cf = self.fn.get(name)
+        if cf is not None and cf['argc'] == 0 and str(cf.get('kind', '')).startswith(('AssocConst', 'Const')):
+            # a generic constant: its initialiser is interpreted for this instantiation
+            sub = dict(zip(cf['generics'], gargs_for(cf, gargs)))
+            outs = self.run_fn(cf, [], st.clone(), sub)
+            if len(outs) == 1 and outs[0].kind == 'ret':
+                return outs[0].val
+            raise Unsupported('generic constant %s does not evaluate to one value' % name)
         raise Unsupported('unevaluated constant %s %s' % (name, [short_ty(g) for g in gargs]))
 
     def const_item_value(self, cv):
@@ -2236,9 +2244,24 @@ class Interp:
             # opaque call whose result could be given the type's invariant
             if any(a_['name'] == target for a_ in self.facts.get('adts', [])):
                 return [Outcome(st, 'ret', Struct(target, list(args)))]
+            if '::' in target:
+                en, vn = target.rsplit('::', 1)
+                vs = self.enum_variants({'k': 'adt', 'name': en, 'args': []})
+                if vs is None:
+                    for l_ in self.facts['layouts']:
+                        if l_['ty'].get('name') == en and 'variants' in l_:
+                            vs = [(v['name'], int(v['discr'], 16), v['nfields']) for v in l_['variants']]
+                            break
+                if vs:
+                    for i_, v_ in enumerate(vs):
+                        if v_[0] == vn:
+                            return [Outcome(st, 'ret', Enum(en, i_, vn, list(args)))]
             raise Unsupported('constructor %s used as a function' % target)
         ctx = CallCtx(self, st, fr, c, target, gargs, args, argtys, dest_ty, loc)
-        m = self.models.get(target) or self.models.get(name)
+        m = self.models.get(target)
+        if m is None and not (resolved and target in self.fn):
+            # the model of a trait method by its generic name (`From::from`) only when the call does not resolve to the crate's own impl
+            m = self.models.get(name)
         if m is None:
             for pat, fn_ in self.pattern_models:
                 if pat.search(target):
